@@ -17,7 +17,8 @@ EXPLANATION = (
     " (R4, extended) the completeness edge may be a counter-vs-length comparison, and that counter must be accumulated, never overwritten, inside the loop; (R6) CR of a CRLF split across two fill_buf windows: the CR test of every LF scanner is window-independent or on the accumulated buffer (found the genuine defect F16, repaired); (R7) copy before consume: a scanner that appends window bytes to a destination does so on every path that consumes a non-constant amount."
     " (R8) a UTF-8 validator fed the bytes of one window inside a scanning loop must not make its error final (found the genuine defect F17 in the lazy VCF reader, repaired)."
     " R4 further requires, for the cursor idiom, that every read inside the loop targets a buffer slice derived from the cursor."
-    " (R9) while a workspace AsyncRead wrapper digests the whole `buf.filled()` after the inner poll (the async CRAM CrcReader), no function that is handed the wrapper polls an accumulating read future (read_exact / read_buf / read_to_end) on it: those keep one ReadBuf across polls, so a short read would digest earlier bytes twice.")
+    " (R9) while a workspace AsyncRead wrapper digests the whole `buf.filled()` after the inner poll (the async CRAM CrcReader), no function that is handed the wrapper polls an accumulating read future (read_exact / read_buf / read_to_end) on it: those keep one ReadBuf across polls, so a short read would digest earlier bytes twice."
+    " (R10) byte accounting across windows: a scanner that returns a byte count adds every computed amount it consumes to that count in the same iteration (the FASTQ / FASTA indexers turn these counts into file offsets).")
 ASSUMPTIONS = [
     "std/tokio read_exact, read_until, read_line, BufReader reassemble short reads and retry Interrupted (library contract)",
     "the classification is structural: it proves the necessary part (no site assumes a window or a full read), not content equality",
@@ -139,6 +140,10 @@ def run(ctx):
     ctx.rule("C12.R9", "digesting AsyncRead wrapper (async CRAM CrcReader digests the whole filled part): no accumulating read future "
                        "(read_exact / read_buf / read_to_end) is polled on it")
     digesting_wrapper_rule(ctx, "C12.R9", 1)
+
+    ctx.rule("C12.R10", "A5d byte accounting across windows: a scanner that returns a byte count adds every amount it consumes to that count "
+                        "(the FASTQ / FASTA indexers turn these counts into file offsets)")
+    a5.consume_accounting_rule(ctx, "C12.R10", 18)
 
     ctx.rule("C12.R5", "line readers: LF/CR popped only after read_until/read_line and on the ends_with edge")
     n = 0
